@@ -346,6 +346,7 @@ structure Eng where
   runIds : List Nat := []                        -- run_progs (ids of the programs run)
   samples : Option (List Rat) := none            -- self.samples (shots = 1: one row; `some []` = empty array)
   measured : Nat → Option Val := fun _ => none   -- self._measured_vals.get(k): latest value per subsystem index
+  contd : Bool := false                          -- any(p.circuit for p in self.run_progs)
   mpos : Nat := 0
 
 def fresh (bk : BK) (opts : List (String × Int)) (mpos : Nat := 0) : Eng := { bk := bk, opts := opts, mpos := mpos }
@@ -369,13 +370,23 @@ def handOver (regs : List (Nat × Bool)) (measured : Nat → Option Val) (vals :
 
 def nonGaussPreps : List String := ["Bosonic", "Catstate", "DensityMatrix", "Fock", "GKP", "Ket"]
 
-/-- `_run_program` : `LocalEngine` loops over the circuit; the bosonic back end's `run_prog` first
-calls `init_circuit` → `begin_circuit(prog.init_num_subsystems)` whenever the circuit is non-empty -/
-def runProgram (bk : BK) (free : String → Option Rat) (outc : Nat → List Rat) (initN : Nat)
+/-- in a continuation the bosonic `run_prog` refuses non-Gaussian preparations when it reaches them:
+modelled by replacing the command by one no back end can apply -/
+def bosonicMark (c : Cmd) : Cmd :=
+  if nonGaussPreps.contains c.cls then { c with cls := "(non-Gaussian preparation)" } else c
+
+/-- `_run_program` : `LocalEngine` loops over the circuit.  `BosonicEngine` (repaired code) passes
+`continuation = any(p.circuit for p in self.run_progs)` to the bosonic `run_prog`: the first non-empty
+program of a computation goes through `init_circuit` → `begin_circuit(prog.init_num_subsystems)`
+(its non-Gaussian preparations and `New` are handled there by direct state manipulation: outside
+this model); a continuation is looped over like on the other engines, `New` included, and
+non-Gaussian preparations raise `NotImplementedError` -/
+def runProgram (bk : BK) (cont : Bool) (free : String → Option Rat) (outc : Nat → List Rat) (initN : Nat)
     (st : RunSt) (circ : List Cmd) : Except Err (RunSt × List Call) :=
   match bk with
   | .bosonic =>
-    if circ.any (fun c => nonGaussPreps.contains c.cls || c.kind == .newModes) then .error .unmodelled
+    if cont then runCircuit free outc st (circ.map bosonicMark)
+    else if circ.any (fun c => nonGaussPreps.contains c.cls || c.kind == .newModes) then .error .unmodelled
     else
       match runCircuit free outc st circ with
       | .error e => .error e
@@ -407,12 +418,13 @@ def runOne (cp : Compiler) (progs : Nat → Prog) (outc : Nat → List Rat) (arg
       match bindParams cpd.freeNames (w.free i) args with
       | .error err => .error err
       | .ok free1 =>
-        match runProgram e.bk free1 outc cpd.initN { vals := vals0, mpos := e.mpos } cpd.circuit with
+        match runProgram e.bk e.contd free1 outc cpd.initN { vals := vals0, mpos := e.mpos } cpd.circuit with
         | .error err => .error err
         | .ok (st, t) =>
           -- self._measured_vals = {k: r.val for k, r in p.reg_refs.items()}
           .ok ({ e with prev := some cpd.regs, runIds := e.runIds ++ [i], samples := some (st.samples.map (·.2)),
-                        measured := fun k => if hasIdx cpd.regs k then st.vals k else none, mpos := st.mpos },
+                        measured := fun k => if hasIdx cpd.regs k then st.vals k else none,
+                        contd := e.contd || !cpd.circuit.isEmpty, mpos := st.mpos },
                { vals := setAt w.vals i st.vals, free := setAt w.free i free1, locked := setAt w.locked i true },
                t0 ++ t)
 
@@ -443,6 +455,7 @@ def updOpts (old new : List (String × Int)) : List (String × Int) :=
 def reset (e : Eng) (w : World) (newOpts : List (String × Int)) : Eng × World × List Call :=
   let opts := updOpts e.opts newOpts
   ({ bk := e.bk, opts := opts, prev := none, runIds := [], samples := none, measured := fun _ => none,
+     contd := false,
      mpos := e.mpos },
    { w with vals := fun i => if e.runIds.contains i then (fun _ => none) else w.vals i },
    [{ name := "reset", opts := opts }])
